@@ -31,6 +31,7 @@ class Node:
     succ: List[Tuple[Optional[str], int]] = field(default_factory=list)
     loops: Tuple[int, ...] = ()  # ids of enclosing loop header nodes (innermost last)
     origin: Optional[ast.AST] = None  # original statement for synthetic nodes
+    truth: Optional[bool] = None  # for synthetic value nodes: known truthiness of the value
 
     @property
     def lineno(self) -> int:
@@ -163,22 +164,23 @@ class CFG:
             t, f = self._cond(first, frontier)
             out = []
             if isinstance(value.op, ast.And):
-                # truthy first -> value is rest; falsy first -> value is first
+                # truthy first -> value is rest; falsy first -> value is first (known falsy)
                 out += self._value_stmt(s, restv, rebuild, t)
-                out += self._simple_value(s, first, rebuild, f)
+                out += self._simple_value(s, first, rebuild, f, truth=False)
             else:
-                out += self._simple_value(s, first, rebuild, t)
+                out += self._simple_value(s, first, rebuild, t, truth=True)
                 out += self._value_stmt(s, restv, rebuild, f)
             return out
         return self._simple_value(s, value, rebuild, frontier)
 
-    def _simple_value(self, s, value, rebuild, frontier) -> list:
+    def _simple_value(self, s, value, rebuild, frontier, truth=None) -> list:
         if not frontier:
             return []
         new = rebuild(value)
         ast.copy_location(new, s)
         ast.fix_missing_locations(new)
         nid = self._stmt_node(new, frontier, origin=s)
+        self.nodes[nid].truth = truth  # known truthiness of the value bound / returned here
         return self._after_simple(new, nid)
 
     def _after_simple(self, s: ast.stmt, nid: int) -> list:
